@@ -99,6 +99,42 @@ func VP_C06_stream() {
 	vpAssert(vpEqBytes(got, want), "host-stream-equals-the-concatenated-data-payloads")
 }
 
+//vp:property C06 C08
+//vp:bounds client->backend from the very start of a tunnel: the full set-up sequence (channel-create processed for real: policy allowing, dial succeeding), one DATA packet in a read of its own, then ONE read that carries two DATA packets and what ends the packet loop right behind them (CLOSE_CHANNEL, an out-of-order handshake, or nothing more: the client drops); payloads of 1..2 symbolic bytes
+//vp:assume hosts reachable; the relay goroutine runs when the packet loop waits
+//vp:reach relayed
+func VP_C06_last_payloads_before_the_end() {
+	vpResetC01()
+	vpResetHandlers()
+	vpAssume(!vpBool("dialfail1"))
+	p1, p2, p3 := vpBytes("payload1", 2), vpBytes("payload2", 2), vpBytes("payload3", 2)
+	vpAssume(len(p1) >= 1 && len(p2) >= 1 && len(p3) >= 1)
+	data := func(pl []byte) []byte { return vpPacket(0xA, append([]byte{byte(len(pl)), 0}, pl...)) }
+	last := append(data(p2), data(p3)...)
+	switch vpIntRange("what-ends-the-loop", 0, 2) {
+	case 1:
+		last = append(last, vpPacket(0x10, []byte{})...)
+	case 2:
+		last = append(last, vpPacket(1, []byte{1, 0, 0, 0, 0, 0})...)
+	}
+	tr := &vpTransport{in: [][]byte{vpSetupPacket(0), vpSetupPacket(1), vpSetupPacket(2), vpSetupPacket(3), data(p1), last}}
+	tr.yieldOnRead = true
+	tun := &Tunnel{transportIn: tr, transportOut: tr, User: vpUser()}
+	NewProcessor(&Gateway{}, tun).Process(vpCtx())
+	vpRunTasks()
+	vpReach("relayed")
+	vpAssert(len(vpDialConns) == 1, "one-host-connection")
+	if len(vpDialConns) != 1 {
+		return
+	}
+	var got []byte
+	for _, w := range vpDialConns[0].written {
+		got = append(got, w...)
+	}
+	want := append(append(append([]byte{}, p1...), p2...), p3...)
+	vpAssert(len(got) == len(want) && vpEqBytes(got, want), "host-receives-every-payload-the-client-sent-before-the-tunnel-ended")
+}
+
 //vp:property C06
 //vp:set reads 2 3
 //vp:set sizes 9 13
